@@ -1,5 +1,8 @@
 SPECIFICATION Spec
 CONSTANTS
   Invalidate = FALSE
+  ShareTimes = TRUE
+  InPlace = FALSE
   MaxLen = 3
+  Small = TRUE
 INVARIANT Coherent
